@@ -103,7 +103,7 @@ def cur() -> "Ctx":
 
 
 class Ctx:
-    BRANCH_TIMEOUT_MS = 4000
+    BRANCH_TIMEOUT_MS = 1500
 
     def __init__(self, engine, prefix):
         self.engine = engine
@@ -211,6 +211,18 @@ class Ctx:
             return True
         if z3.is_false(cond):
             return False
+        key = cond.sexpr()
+        cache = self.memo.setdefault("branch_cache", {})
+        if key in cache:
+            return cache[key]          # already decided on this path (the decision is part of the path condition)
+        neg = z3.simplify(z3.Not(cond)).sexpr()
+        if neg in cache:
+            return not cache[neg]
+        take = self._branch(cond)
+        cache[key] = take
+        return take
+
+    def _branch(self, cond):
         if self.di < len(self.prefix):
             take = self.prefix[self.di]
             self.di += 1
@@ -237,6 +249,17 @@ class Ctx:
     def _add_pc(self, f):
         self.pc.append(f)
         self.solver.add(f)
+        # a decision of the form  <skolem constant> == <term>  also acts as a rewrite rule (see rewrite())
+        try:
+            if z3.is_eq(f) and f.num_args() == 2 and f.arg(0).sort() == z3.IntSort():
+                a, b = f.arg(0), f.arg(1)
+                for x, y in ((a, b), (b, a)):
+                    if z3.is_const(x) and x.decl().kind() == z3.Z3_OP_UNINTERPRETED and not z3.is_int_value(x) \
+                            and str(x).split("!")[0] in ("sk", "c", "i", "h", "fi", "tb", "ts", "e", "mt") and not x.eq(y):
+                        self.memo.setdefault("rewrites", []).append((x, y))
+                        break
+        except Exception:
+            pass
 
     # -- obligations ------------------------------------------------------------
     def oblige(self, kind, label, goal, meta=None, expect_sat=False):
@@ -252,6 +275,11 @@ class Ctx:
             return o
         if isinstance(goal, bool):
             goal = z3.BoolVal(goal)
+        rw = self.memo.get("rewrites")
+        if rw:
+            # equalities proved earlier on this path (and part of the path condition) are applied as rewrites, so that
+            # terms that differ only by provably equal sub-terms become syntactically equal
+            goal = z3.substitute(goal, *rw)
         path = "".join("T" if d else "F" for d in self.decisions)
         oid = f"{self.tag}/{kind}.{label}"
         hyps = [h for h in self.hyps if not isinstance(h, bool)]
@@ -269,6 +297,15 @@ class Ctx:
             self.assume(hyp)
             fn()
             raise PathEnd()
+
+    def rewrite(self, e):
+        """apply the equations proved so far on this path (see lemmas.prove_then_assume) as rewrite rules"""
+        if not isinstance(e, z3.ExprRef):
+            return e
+        rw = self.memo.get("rewrites")
+        if not rw:
+            return z3.simplify(e)
+        return z3.simplify(z3.substitute(e, *rw))
 
     def hypothesis(self, f):
         """context manager: obligations emitted inside have `f` as an additional antecedent.
